@@ -39,7 +39,7 @@ def gen_desc(rng):
         pos += size
     cid_mode = rng.pick(['arg', 'arg', 'essential', 'withheld', 'withheld'])
     otp_mode = rng.pick(['arg-dec', 'arg-enc', 'essential', 'essential-enc'])
-    return {'otp_history': rng.pick([0, 0, 0, 1, 2]),
+    return {'otp_history': rng.pick([0, 0, 0, 1, 2]), 'file_start': rng.pick([0, 0, 0, 0x200, 0x4D0, 0x1230]),
             'dev': int(rng.chance(0.3)), 'parts': parts, 'cid': rng.rbytes(16), 'cid_mode': cid_mode, 'otp_mode': otp_mode,
             'image_mu': rng.pick([0x200000, 0x280000]), 'otp_seed': rng.getrandbits(32), 'layout': layout,
             'auto_raise': int(rng.chance(0.5)), 'seed': rng.getrandbits(32), 'tail': rng.pick([0, 0, 0x200])}
@@ -126,9 +126,23 @@ def render_real(nand):
             f'twlparts={parts(nand.twl_partitions)} keys={keys}')
 
 
+class StartedBytesIO(io.BytesIO):
+    def __init__(self, data, start):
+        super().__init__(data)
+        self._verif_start = start
+        self.seek(start)
+
+    def getvalue(self):
+        return super().getvalue()[self._verif_start:]
+
+
 def open_real(img, info, desc, bio=None):
     from pyctr.type.nand import NAND
-    bio = bio if bio is not None else io.BytesIO(img)
+    # the image need not begin at position 0 of the file object it is read from (a NAND embedded in a larger blob): the reader
+    # starts where the file object stands; `StartedBytesIO.getvalue()` gives the image part back
+    start = desc.get('file_start', 0)
+    if bio is None:
+        bio = StartedBytesIO(b'\xEE' * start + img, start)
     kw = {}
     if desc.get('otp_history') and info['otp_arg'] is not None:
         # (only when the OTP is given as an ARGUMENT: an engine that already has console-unique keys is documented to keep them when
